@@ -161,6 +161,46 @@ func runC10(p *core.Program, r *core.Report) {
 					r.OK("C10.no-reentry", key, p.Pos(c.Pos), "callee never acquires the mutex")
 				}
 			}
+			// a read lock admits other readers: nothing is written under it, neither directly nor by a
+			// same-receiver method called while it is held
+			{
+				var w []string
+				for _, ac := range fl.Accesses {
+					if ac.Write && ac.Shared {
+						w = append(w, "write of "+ac.Field+" at "+p.Pos(ac.Pos))
+					}
+				}
+				var writesIn func(f *locks.FuncLocks, depth int, seen map[*types.Func]bool) string
+				writesIn = func(f *locks.FuncLocks, depth int, seen map[*types.Func]bool) string {
+					if f == nil || depth > 3 {
+						return ""
+					}
+					for _, ac := range f.Accesses {
+						if ac.Write {
+							return ac.Field
+						}
+					}
+					for _, c := range f.Calls {
+						if !seen[c.Callee] {
+							seen[c.Callee] = true
+							if x := writesIn(tl.Funcs[c.Callee], depth+1, seen); x != "" {
+								return x
+							}
+						}
+					}
+					return ""
+				}
+				for _, c := range fl.Calls {
+					if c.Shared {
+						if x := writesIn(tl.Funcs[c.Callee], 0, map[*types.Func]bool{}); x != "" {
+							w = append(w, c.Callee.Name()+"() (which writes "+x+") called at "+p.Pos(c.Pos))
+						}
+					}
+				}
+				if len(w) > 0 {
+					r.Viol("C10.guarded", mname+" under the read lock", pos, "with only the read lock held: "+strings.Join(uniq(w), ", ")+": two such calls run side by side and both rewrite the structure")
+				}
+			}
 			// guarded accesses
 			if fl.Exported && anchored {
 				var bad []string
